@@ -85,6 +85,10 @@ function buildImports(spec, log, share) {
       //  with the CALLER's instance, so a table shared between instances behaves differently by design)
       v = share.imports[mod][field];
       if (im.kind === 'memory' && created.memory === null) created.memory = v;
+    } else if (im.kind === 'func' && typeof imports[mod][field] === 'function') {
+      // the SAME (module, field) imported once more: one host function, logged under the index of its first import entry
+      v = imports[mod][field];
+      funcIndex++;
     } else if (im.kind === 'func') {
       const idx = funcIndex++;
       const params = im.params, results = im.results;
